@@ -50,34 +50,82 @@ func engineConcSearch(ctx *Ctx) {
 		cmds := vlib.GenCommands(r, sp)
 		mainP := filepath.Join(ctx.Scratch, fmt.Sprintf("cm%d.yml", rd))
 		persP := filepath.Join(ctx.Scratch, fmt.Sprintf("cp%d.yml", rd))
-		ok := ctx.R.Guard("C11", how, dbName, func() {
+		persCmds := vlib.GenCommands(r, vlib.DBSpec{N: 4})
+		withEmb := rd%3 == 1 // an embedding index attached (word vectors are shared by every search that embeds a query)
+		embDir := filepath.Join(ctx.Scratch, fmt.Sprintf("cemb%d", rd))
+		open := func() *database.Database {
+			var x *database.Database
 			var err error
 			switch how {
 			case "LoadDatabase":
 				if rd == 0 && ctx.Shard%4 == 0 {
-					db = ctx.Shipped()
+					x = ctx.Shipped()
 					dbName = "shipped"
 				} else {
-					db = vlib.MustLoad(cmds)
+					x = vlib.MustLoad(cmds)
 				}
 			case "LoadDatabaseWithPersonal":
 				vlib.WriteYAML(mainP, cmds)
-				vlib.WriteYAML(persP, vlib.GenCommands(r, vlib.DBSpec{N: 4}))
-				db, err = database.LoadDatabaseWithPersonal(mainP, persP)
+				vlib.WriteYAML(persP, persCmds)
+				x, err = database.LoadDatabaseWithPersonal(mainP, persP)
 			case "LoadDatabaseWithFallback(faulty path)":
-				db, err = recovery.NewDatabaseRecovery(recovery.RetryConfig{MaxAttempts: 1}).LoadDatabaseWithFallback(filepath.Join(ctx.Scratch, "nope", "missing.yml"), persP)
+				x, err = recovery.NewDatabaseRecovery(recovery.RetryConfig{MaxAttempts: 1}).LoadDatabaseWithFallback(filepath.Join(ctx.Scratch, "nope", "missing.yml"), persP)
 			default:
 				vlib.WriteYAML(mainP, cmds)
-				db, err = recovery.NewDatabaseRecovery(recovery.RetryConfig{MaxAttempts: 1}).LoadDatabaseWithFallback(mainP, filepath.Join(ctx.Scratch, "no-notebook.yml"))
+				x, err = recovery.NewDatabaseRecovery(recovery.RetryConfig{MaxAttempts: 1}).LoadDatabaseWithFallback(mainP, filepath.Join(ctx.Scratch, "no-notebook.yml"))
 			}
+			os.Remove(mainP)
+			os.Remove(persP)
 			if err != nil {
 				panic(err)
 			}
+			if withEmb && x != nil && dbName != "shipped" {
+				wd, _ := os.Getwd()
+				os.Chdir(embDir)
+				x.LoadEmbeddings()
+				os.Chdir(wd)
+			}
+			return x
+		}
+		ok := ctx.R.Guard("C11", how, dbName, func() {
+			if withEmb {
+				// word vectors of assorted lengths for every word of the database; command embeddings = normalised sums
+				ref := vlib.MustLoad(cmds)
+				all := append(append([]database.Command{}, ref.Commands...), vlib.MustLoad(persCmds).Commands...)
+				wv := map[string][]float32{}
+				var wl []string
+				var vl [][]float32
+				for _, w := range vlib.DBWords(all) {
+					v := c19Unit(c19Gauss(r, 100), []float64{0.3, 1, 2.5, 7}[r.Intn(4)])
+					wv[w] = v
+					wl = append(wl, w)
+					vl = append(vl, v)
+				}
+				var cv [][]float32
+				for k := range all {
+					sum := make([]float32, 100)
+					ft := vlib.FieldTexts(&all[k])
+					for _, t := range vlib.Tokenize(strings.Join(ft[:], " ")) {
+						if v, ok := wv[t]; ok {
+							for j := range sum {
+								sum[j] += v[j]
+							}
+						}
+					}
+					cv = append(cv, c19Unit(sum, 1))
+				}
+				os.MkdirAll(embDir, 0o755)
+				os.WriteFile(filepath.Join(embDir, "glove.bin"), c19Glove(uint32(len(wl)), wl, vl), 0o644)
+				os.WriteFile(filepath.Join(embDir, "cmd_embeddings.bin"), c19CmdFile(uint32(len(cv)), 100, cv), 0o644)
+			}
+			db = open()
 		})
-		os.Remove(mainP)
-		os.Remove(persP)
 		if !ok || db == nil || len(db.Commands) == 0 {
+			os.RemoveAll(embDir)
 			continue
+		}
+		if withEmb && db.HasEmbeddings() {
+			ctx.R.Path("rounds-with-embeddings", 1)
 		}
 		words := vlib.DBWords(db.Commands)
 		if len(words) > 1500 {
@@ -104,6 +152,10 @@ func engineConcSearch(ctx *Ctx) {
 		}
 		boostsBefore := fmt.Sprint(baseO.ContextBoosts)
 		mix = append(mix, qo{"list directory", baseO}, qo{"copy files", baseO})
+		if len(words) > 1 { // one-word requests and longer requests that share the word
+			w1, w2 := vlib.Word(r, words), vlib.Word(r, words)
+			mix = append(mix, qo{w1, baseO}, qo{w1 + " " + w2, baseO}, qo{w2, baseO})
+		}
 		G := []int{4, 8, 16, 32}[r.Intn(4)]
 		K := ctx.Pick(12, 20)
 		if dbName == "shipped" {
@@ -191,6 +243,23 @@ func engineConcSearch(ctx *Ctx) {
 			}
 		}
 		ctx.R.Path("concurrent-answers-compared", int64(nCmp))
+		// "what it returns when run alone": each request, as the first and only search on a fresh instance obtained the same
+		// way, must get the answer it got here (an answer may not depend on the searches that ran before or beside it)
+		if dbName != "shipped" && (withEmb || rd%4 == 3) {
+			ctx.R.Guard("C11", "alone on a fresh instance", cs, func() {
+				for i := len(mix) - 1; i >= 0 && i >= len(mix)-6; i-- {
+					fresh := open()
+					alone := vlib.Canon(fresh.Commands, fresh.SearchUniversal(mix[i].q, mix[i].o))
+					ctx.R.Path("fresh-instance-answers-compared", 1)
+					if v, why := vlib.CompareToRef(seq[i].refs, seq[i].stable, alone, vlib.LimitInForce(baseO.Limit)); v == "violated" {
+						ctx.R.Violate(vlib.Violation{Property: "C11", Clause: "not-as-if-alone", Path: "SearchUniversal/fresh-instance",
+							Detail:  fmt.Sprintf("the answer for %q on the instance that served the concurrent searches differs from the answer it gets as the only search on a fresh instance: %s", mix[i].q, why),
+							Witness: map[string]interface{}{"case": cs, "alone_on_fresh_instance": alone, "on_used_instance": seq[i].refs[0]}})
+					}
+				}
+			})
+		}
+		os.RemoveAll(embDir)
 		ctx.R.Path("loaded-by:"+how, 1)
 		ctx.R.Path("goroutine-rounds", 1)
 		ctx.R.Nontriv(dbName, how, G, K, rd)
@@ -240,7 +309,10 @@ type c11Out struct {
 	Keys  string
 }
 
-type c11KV struct{ K, V string }
+type c11KV struct {
+	K, V string
+	A    int // age in virtual-time steps (lifetime regime only)
+}
 
 type c11State struct {
 	Cap                     int
@@ -295,7 +367,7 @@ func c11Model() porcupine.Model {
 					s.toFront(idx)
 					return true, s
 				}
-				s.Items = append([]c11KV{{i.Key, i.Val}}, s.Items...)
+				s.Items = append([]c11KV{{K: i.Key, V: i.Val}}, s.Items...)
 				if len(s.Items) > s.Cap {
 					s.Items = s.Items[:len(s.Items)-1]
 					s.Evictions++
@@ -334,10 +406,192 @@ func c11Model() porcupine.Model {
 	}
 }
 
+// Lifetime regime: entries live 1000 h, virtual time advances in steps of 400 h (VerifAdvance, atomic under the cache's
+// lock), so an entry is dead from its third step on and real elapsed time (milliseconds) never decides. A dead entry is
+// semantically absent: a lookup must miss it; whether and when the cache drops it is left open (the model is
+// nondeterministic: any subset of dead entries may have vanished before any operation, a sweep reports how many it dropped).
+const c11DeadAge = 3
+
+func c11TTLModel() porcupine.Model {
+	apply := func(s c11State, i c11In, o c11Out) []c11State {
+		switch i.Op {
+		case "init":
+			s.Cap = o.N
+			return []c11State{s}
+		case "adv":
+			for k := range s.Items {
+				s.Items[k].A++
+			}
+			return []c11State{s}
+		case "get":
+			idx := s.find(i.Key)
+			if idx < 0 {
+				s.Misses++
+				if o.OK {
+					return nil
+				}
+				return []c11State{s}
+			}
+			if s.Items[idx].A >= c11DeadAge {
+				if o.OK {
+					return nil
+				}
+				s.Misses++
+				kept := s.clone()
+				s.Items = append(s.Items[:idx], s.Items[idx+1:]...)
+				return []c11State{s, kept}
+			}
+			v := s.Items[idx].V
+			s.toFront(idx)
+			s.Hits++
+			if !o.OK || o.Val != v {
+				return nil
+			}
+			return []c11State{s}
+		case "put":
+			if idx := s.find(i.Key); idx >= 0 {
+				dead := s.Items[idx].A >= c11DeadAge
+				s.Items[idx].V = i.Val
+				s.toFront(idx)
+				if dead {
+					fresh := s.clone()
+					fresh.Items[0].A = 0
+					return []c11State{s, fresh}
+				}
+				return []c11State{s}
+			}
+			s.Items = append([]c11KV{{K: i.Key, V: i.Val}}, s.Items...)
+			if len(s.Items) > s.Cap {
+				s.Items = s.Items[:len(s.Items)-1]
+				s.Evictions++
+			}
+			return []c11State{s}
+		case "del":
+			idx := s.find(i.Key)
+			if idx < 0 {
+				if o.OK {
+					return nil
+				}
+				return []c11State{s}
+			}
+			if !o.OK {
+				return nil
+			}
+			s.Items = append(s.Items[:idx], s.Items[idx+1:]...)
+			return []c11State{s}
+		case "size":
+			if o.N != len(s.Items) {
+				return nil
+			}
+			return []c11State{s}
+		case "stats":
+			if o.Stats != [4]int64{s.Hits, s.Misses, s.Evictions, int64(len(s.Items))} {
+				return nil
+			}
+			return []c11State{s}
+		case "keys":
+			ks := make([]string, len(s.Items))
+			for k, it := range s.Items {
+				ks[k] = it.K
+			}
+			sort.Strings(ks)
+			if o.Keys != strings.Join(ks, ",") {
+				return nil
+			}
+			return []c11State{s}
+		case "clear":
+			s.Items, s.Hits, s.Misses, s.Evictions = nil, 0, 0, 0
+			return []c11State{s}
+		case "sweep":
+			var dead []int
+			for k, it := range s.Items {
+				if it.A >= c11DeadAge {
+					dead = append(dead, k)
+				}
+			}
+			if o.N < 0 || o.N > len(dead) {
+				return nil // a sweep may remove dead entries only
+			}
+			var out []c11State
+			for mask := 0; mask < 1<<len(dead); mask++ {
+				if bitsSet(mask) != o.N {
+					continue
+				}
+				t := c11State{Cap: s.Cap, Hits: s.Hits, Misses: s.Misses, Evictions: s.Evictions}
+				for k, it := range s.Items {
+					drop := false
+					for b, d := range dead {
+						if d == k && mask&(1<<b) != 0 {
+							drop = true
+						}
+					}
+					if !drop {
+						t.Items = append(t.Items, it)
+					}
+				}
+				out = append(out, t)
+			}
+			return out
+		}
+		return nil
+	}
+	nm := porcupine.NondeterministicModel{
+		Init: func() []interface{} { return []interface{}{c11State{}} },
+		Step: func(st, in, out interface{}) []interface{} {
+			s0 := st.(c11State)
+			i, o := in.(c11In), out.(c11Out)
+			var dead []int
+			for k, it := range s0.Items {
+				if it.A >= c11DeadAge {
+					dead = append(dead, k)
+				}
+			}
+			seen := map[string]bool{}
+			var res []interface{}
+			for mask := 0; mask < 1<<len(dead); mask++ { // dead entries that have silently vanished by now
+				s := c11State{Cap: s0.Cap, Hits: s0.Hits, Misses: s0.Misses, Evictions: s0.Evictions}
+				for k, it := range s0.Items {
+					drop := false
+					for b, d := range dead {
+						if d == k && mask&(1<<b) != 0 {
+							drop = true
+						}
+					}
+					if !drop {
+						s.Items = append(s.Items, it)
+					}
+				}
+				for _, n := range apply(s, i, o) {
+					if len(n.Items) == 0 {
+						n.Items = nil
+					}
+					key := fmt.Sprintf("%+v", n)
+					if !seen[key] {
+						seen[key] = true
+						res = append(res, n)
+					}
+				}
+			}
+			return res
+		},
+		Equal:             func(a, b interface{}) bool { return reflect.DeepEqual(a, b) },
+		DescribeOperation: func(in, out interface{}) string { return fmt.Sprintf("%+v -> %+v", in, out) },
+	}
+	return nm.ToModel()
+}
+
+func bitsSet(x int) int {
+	n := 0
+	for ; x != 0; x &= x - 1 {
+		n++
+	}
+	return n
+}
+
 func engineConcLRU(ctx *Ctx) {
 	r := vlib.NewRand(ctx.Seed, ctx.Shard, "conc-lru")
 	nHist := ctx.N(2400, 48000)
-	model := c11Model()
+	plainModel, ttlModel := c11Model(), c11TTLModel()
 	shapes := map[string]bool{}
 	for h := 0; h < nHist; h++ {
 		capacity := 1 + r.Intn(3)
@@ -345,13 +599,22 @@ func engineConcLRU(ctx *Ctx) {
 		clients := 3 + r.Intn(4)
 		opsEach := 6 + r.Intn(7)
 		viaSearchCache := h%5 == 4
-		lru := cache.NewLRUCache(capacity, 0)
+		withLifetime := h%3 == 2
+		model := plainModel
+		ttl := time.Duration(0)
+		if withLifetime {
+			model, ttl = ttlModel, 1000*time.Hour
+			if clients > 4 {
+				clients = 4
+			}
+		}
+		lru := cache.NewLRUCache(capacity, ttl)
 		var sc *cache.SearchCache
 		if viaSearchCache {
-			sc = cache.NewSearchCache(capacity, 0)
+			sc = cache.NewSearchCache(capacity, ttl)
 			lru = sc.VerifLRU()
 		}
-		cs := map[string]interface{}{"capacity": capacity, "keys": nKeys, "clients": clients, "ops_each": opsEach, "via_search_cache": viaSearchCache}
+		cs := map[string]interface{}{"capacity": capacity, "keys": nKeys, "clients": clients, "ops_each": opsEach, "via_search_cache": viaSearchCache, "lifetime": ttl.String()}
 		ctx.R.Begin(cs)
 		ctx.R.Eval(1)
 		var mu sync.Mutex
@@ -373,12 +636,18 @@ func engineConcLRU(ctx *Ctx) {
 					in := c11In{Key: key}
 					var out c11Out
 					opn := lr.Intn(20)
+					if withLifetime && lr.Intn(6) == 0 {
+						opn = 99
+					}
 					val := fmt.Sprintf("c%d-%d", c, atomic.AddInt64(&uniq, 1))
 					mu.Lock()
 					order = append(order, int32(c))
 					mu.Unlock()
 					call := now()
 					switch {
+					case opn == 99: // virtual time: every entry becomes 400 h older
+						in = c11In{Op: "adv"}
+						lru.VerifAdvance(400 * time.Hour)
 					case opn < 7:
 						in.Op = "get"
 						if sc != nil {
@@ -473,6 +742,14 @@ func engineConcLRU(ctx *Ctx) {
 		}
 		if viaSearchCache {
 			ctx.R.Path("histories-searchcache", 1)
+		}
+		if withLifetime {
+			ctx.R.Path("histories-with-lifetime", 1)
+			for _, o := range ops {
+				if i := o.Input.(c11In); i.Op == "sweep" && o.Output.(c11Out).N > 0 {
+					ctx.R.Path("sweeps-that-removed-entries", 1)
+				}
+			}
 		}
 		ctx.R.Path("lru-operations", int64(len(ops)-1))
 		ctx.R.Nontriv(h, fmt.Sprint(order))
